@@ -23,7 +23,8 @@ import (
 type PropDef struct {
 	ID        string
 	QuickRuns int
-	Race      bool // needs the -race build
+	Race      bool // also runs under the -race build
+	RaceRuns  int  // quick tier: runs under the -race build (default QuickRuns/8)
 	Variants  int  // >1: run i uses the choice stream of scenario i/Variants with variant i%Variants (fault position)
 	Level     string
 	Rule      string
@@ -58,7 +59,8 @@ type RunResult struct {
 	Inconcl    int               `json:"inconclusive,omitempty"`
 	Exhausted  bool              `json:"exhausted,omitempty"`
 	WallUS     int64             `json:"wall_us"`
-	Races      []string          `json:"races,omitempty"`
+	RaceBuild  bool              `json:"race_build,omitempty"`
+	RaceDrop   int               `json:"race_reports_harness_side,omitempty"`
 	Variant    int               `json:"variant,omitempty"`
 }
 
@@ -73,6 +75,7 @@ type ReplayFile struct {
 	Ops     []string `json:"operations_and_faults"`
 	Note    string   `json:"note,omitempty"`
 	Variant int      `json:"variant,omitempty"`
+	RaceBuild bool   `json:"race_build,omitempty"`
 }
 
 // curVariant is the variant (fault position) of the run being executed.
@@ -87,6 +90,9 @@ func propHash(id string) uint64 {
 // execRun performs one run with the given choice source.
 func execRun(pd *PropDef, seed uint64, tier string, ch *vsim.Choices, keepOps bool) (res RunResult) {
 	t0 := time.Now()
+	if vsim.RaceEnabled {
+		drainRaces() // reports written between runs belong to no run
+	}
 	r := NewRun(pd.ID, seed, tier, ch)
 	defer r.Close()
 	if d := os.Getenv("UPFSIM_DUMPLOG"); d != "" {
@@ -109,6 +115,18 @@ func execRun(pd *PropDef, seed uint64, tier string, ch *vsim.Choices, keepOps bo
 	}()
 	res.Seed = seed
 	res.Viol = r.Violations
+	if vsim.RaceEnabled {
+		res.RaceBuild = true
+		rv, dropped := raceViolations(pd.ID, drainRaces())
+		res.RaceDrop = dropped
+		seen := map[string]bool{}
+		for _, v := range rv {
+			if !seen[v.Sig] {
+				seen[v.Sig] = true
+				res.Viol = append(res.Viol, v)
+			}
+		}
+	}
 	res.LogHash = fmt.Sprintf("%016x", r.Sim.LogHash())
 	h := fnv.New64a()
 	for _, s := range r.skel {
@@ -193,7 +211,6 @@ func cmdWorker(args []string) int {
 		res := execRun(pd, rs, *tier, vsim.NewChoices(rs), i%*sample == 0)
 		res.Variant = variant
 		res.I = i
-		res.Races = drainRaces()
 		enc.Encode(res)
 		out.Flush()
 	}
@@ -222,6 +239,7 @@ func cmdReplay(args []string) int {
 	file := fs.String("file", "", "")
 	verbose := fs.Bool("v", false, "print operations")
 	quiet := fs.Bool("q", false, "")
+	asJSON := fs.Bool("json", false, "print the run result as JSON (used by the minimiser)")
 	fs.Parse(args)
 	if *file == "" && fs.NArg() > 0 {
 		*file = fs.Arg(0)
@@ -231,6 +249,25 @@ func cmdReplay(args []string) int {
 		fmt.Fprintln(os.Stderr, "replay:", err)
 		return 2
 	}
+	if rf.RaceBuild && !vsim.RaceEnabled {
+		// found under the race detector: replay with the race build next to this binary
+		self, _ := os.Executable()
+		rb := filepath.Join(filepath.Dir(self), "upfsim-race")
+		if _, err := os.Stat(rb); err != nil {
+			fmt.Fprintln(os.Stderr, "replay: needs the race build:", err)
+			return 2
+		}
+		cmd := exec.Command(rb, append([]string{"replay"}, args...)...)
+		cmd.Stdout, cmd.Stderr = os.Stdout, os.Stderr
+		cmd.Env = append(os.Environ(), "GORACE=halt_on_error=0 exitcode=0 log_path="+raceLogPrefix())
+		err := cmd.Run()
+		if ee, ok := err.(*exec.ExitError); ok {
+			return ee.ExitCode()
+		} else if err != nil {
+			return 2
+		}
+		return 0
+	}
 	pd := Props[rf.Prop]
 	if pd == nil {
 		fmt.Fprintln(os.Stderr, "replay: unknown property", rf.Prop)
@@ -238,6 +275,10 @@ func cmdReplay(args []string) int {
 	}
 	curVariant = rf.Variant
 	res := execRun(pd, rf.Seed, rf.Tier, vsim.ReplayChoices(rf.Trace), true)
+	if *asJSON {
+		json.NewEncoder(os.Stdout).Encode(res)
+		return 0
+	}
 	if *verbose {
 		for _, o := range res.Ops {
 			fmt.Println("  ", o)
@@ -245,7 +286,7 @@ func cmdReplay(args []string) int {
 	}
 	same := false
 	for _, v := range res.Viol {
-		if v.Prop == rf.Prop && v.Sig == rf.Sig {
+		if v.Prop == rf.Prop && (v.Sig == rf.Sig || raceSigCompatible(v.Sig, rf.Sig)) {
 			same = true
 		}
 	}
@@ -305,7 +346,14 @@ func shrinkTrace(pd *PropDef, rf *ReplayFile, budget time.Duration) (*ReplayFile
 		}
 		attempts++
 		curVariant = rf.Variant
-		res := execRun(pd, rf.Seed, rf.Tier, vsim.ReplayChoices(cand), true)
+		var res RunResult
+		if strings.HasPrefix(rf.Sig, "data-race:") {
+			// the race runtime reports one pair of accesses once per process:
+			// every attempt needs a fresh process
+			res = execExternal(rf, cand)
+		} else {
+			res = execRun(pd, rf.Seed, rf.Tier, vsim.ReplayChoices(cand), true)
+		}
 		for _, v := range res.Viol {
 			if v.Prop == rf.Prop && v.Sig == rf.Sig {
 				// normalise: the trace actually consumed
@@ -425,6 +473,28 @@ func cmdShrink(args []string) int {
 	return 0
 }
 
+// execExternal replays cand in a fresh process of this binary and returns its result.
+func execExternal(rf *ReplayFile, cand []uint32) (res RunResult) {
+	self, _ := os.Executable()
+	tmp, err := os.CreateTemp("", "upfsim-cand-*.json")
+	if err != nil {
+		return
+	}
+	tmp.Close()
+	defer os.Remove(tmp.Name())
+	c := *rf
+	c.Trace = cand
+	c.LogHash = ""
+	if writeJSON(tmp.Name(), &c) != nil {
+		return
+	}
+	cmd := exec.Command(self, "replay", "-json", "-file", tmp.Name())
+	cmd.Env = append(os.Environ(), "GORACE=halt_on_error=0 exitcode=0 log_path="+raceLogPrefix())
+	out, _ := cmd.Output()
+	json.Unmarshal(out, &res)
+	return
+}
+
 func writeJSON(path string, v any) error {
 	b, err := json.MarshalIndent(v, "", " ")
 	if err != nil {
@@ -535,14 +605,15 @@ func cmdCheck(args []string) int {
 	var results []RunResult
 	var wg sync.WaitGroup
 	harnessTrouble := false
-	runWorker := func(from, to, stride int, extra ...string) {
+	var deadlineNow int64 // deadline of the phase being run
+	runWorker := func(bin string, from, to, stride int, extra ...string) {
 		defer wg.Done()
 		a := []string{"worker", "-prop", pd.ID, "-seed", strconv.FormatUint(seed, 10), "-from", strconv.Itoa(from), "-to", strconv.Itoa(to),
-			"-stride", strconv.Itoa(stride), "-tier", *tier, "-deadline", strconv.FormatInt(deadline, 10)}
+			"-stride", strconv.Itoa(stride), "-tier", *tier, "-deadline", strconv.FormatInt(deadlineNow, 10)}
 		a = append(a, extra...)
-		cmd := exec.Command(self, a...)
+		cmd := exec.Command(bin, a...)
 		cmd.Stderr = os.Stderr
-		cmd.Env = append(os.Environ(), "GORACE=halt_on_error=0 log_path="+raceLogPrefix())
+		cmd.Env = append(os.Environ(), "GORACE=halt_on_error=0 exitcode=0 log_path="+raceLogPrefix())
 		stdout, err := cmd.StdoutPipe()
 		if err != nil || cmd.Start() != nil {
 			mu.Lock()
@@ -569,36 +640,90 @@ func cmdCheck(args []string) int {
 	}
 	// Workers take interleaved indices (stride) and are recycled in chunks so
 	// that goroutines leaked by killed incarnations stay bounded.
-	chunk := 250 * nw
-	for base := 0; base < n; base += chunk {
-		if deadline != 0 && time.Now().Unix() >= deadline {
-			break
-		}
-		end := base + chunk
-		if end > n {
-			end = n
-		}
-		for w := 0; w < nw; w++ {
-			wg.Add(1)
-			go runWorker(base+w, end, nw)
-		}
-		wg.Wait()
-		if harnessTrouble {
-			break
+	runPhase := func(bin string, n int, dl int64, chunk int) {
+		deadlineNow = dl
+		for base := 0; base < n; base += chunk {
+			if dl != 0 && time.Now().Unix() >= dl {
+				break
+			}
+			end := base + chunk
+			if end > n {
+				end = n
+			}
+			for w := 0; w < nw; w++ {
+				wg.Add(1)
+				go runWorker(bin, base+w, end, nw)
+			}
+			wg.Wait()
+			if harnessTrouble {
+				break
+			}
 		}
 	}
+	selfRace := ""
+	if pd.Race && !vsim.RaceEnabled {
+		selfRace = filepath.Join(filepath.Dir(self), "upfsim-race")
+		if _, err := os.Stat(selfRace); err != nil {
+			fmt.Fprintln(os.Stderr, "check: the race build is missing:", err)
+			return 2
+		}
+	}
+	deadlineA := deadline
+	if deadline != 0 && selfRace != "" {
+		// thorough: 60 % of the budget for the plain build, 40 % under the race detector
+		deadlineA = t0.Unix() + (deadline-t0.Unix())*6/10
+	}
+	runPhase(self, n, deadlineA, 250*nw)
+	nPlain := len(results)
+	if selfRace != "" && !harnessTrouble {
+		nr := pd.RaceRuns
+		if nr == 0 {
+			nr = pd.QuickRuns / 8
+		}
+		if *runs > 0 {
+			nr = *runs / 4
+		}
+		if deadline != 0 {
+			nr = 1 << 30
+		}
+		runPhase(selfRace, nr, deadline, 60*nw)
+	}
+	nRace := len(results) - nPlain
 	if harnessTrouble {
 		fmt.Fprintln(os.Stderr, "check: harness trouble (worker crashed / watchdog); no verdict")
 		return 2
 	}
-	sort.Slice(results, func(i, j int) bool { return results[i].I < results[j].I })
+	sort.SliceStable(results, func(i, j int) bool {
+		if results[i].RaceBuild != results[j].RaceBuild {
+			return !results[i].RaceBuild
+		}
+		return results[i].I < results[j].I
+	})
+	// the race build must make exactly the same runs as the plain build
+	crossMismatch := 0
+	if nRace > 0 {
+		plainHash := map[int]string{}
+		for _, rr := range results[:nPlain] {
+			plainHash[rr.I] = rr.LogHash
+		}
+		for _, rr := range results[nPlain:] {
+			if h, ok := plainHash[rr.I]; ok && h != rr.LogHash {
+				crossMismatch++
+				fmt.Fprintf(os.Stderr, "check: NONDETERMINISM run %d: plain build %s, race build %s\n", rr.I, h, rr.LogHash)
+			}
+		}
+	}
+	if crossMismatch > 0 {
+		fmt.Fprintln(os.Stderr, "check: race build and plain build disagree on the event log; no verdict")
+		return 2
+	}
 
 	// determinism recheck: re-execute ~2% of the runs in a fresh process
 	recheckRuns, recheckMismatch := 0, 0
 	if len(results) > 0 {
 		step := 50
 		var first []RunResult
-		for k := 0; k < len(results); k += step {
+		for k := 0; k < nPlain; k += step {
 			first = append(first, results[k])
 		}
 		if len(first) > 200 {
@@ -615,7 +740,7 @@ func cmdCheck(args []string) int {
 				defer wg2.Done()
 				defer func() { <-sem }()
 				cmd := exec.Command(self, "worker", "-prop", pd.ID, "-seed", strconv.FormatUint(seed, 10), "-from", strconv.Itoa(i), "-to", strconv.Itoa(i+1), "-tier", *tier)
-				cmd.Env = append(os.Environ(), "GORACE=halt_on_error=0 log_path="+raceLogPrefix())
+				cmd.Env = append(os.Environ(), "GORACE=halt_on_error=0 exitcode=0 log_path="+raceLogPrefix())
 				out, err := cmd.Output()
 				if err != nil {
 					return
@@ -699,7 +824,11 @@ func cmdCheck(args []string) int {
 		h := fnv.New32a()
 		h.Write([]byte(sig))
 		path := filepath.Join(verifDir(), "replays", fmt.Sprintf("%s-%d-%08x.json", pd.ID, seed, h.Sum32()))
-		rf := &ReplayFile{Prop: pd.ID, Tier: *tier, Seed: x.run.Seed, Sig: sig, Msg: x.v.Msg, LogHash: x.run.LogHash, Trace: x.run.Trace, Ops: x.run.Ops, Variant: x.run.Variant}
+		rf := &ReplayFile{Prop: pd.ID, Tier: *tier, Seed: x.run.Seed, Sig: sig, Msg: x.v.Msg, LogHash: x.run.LogHash, Trace: x.run.Trace, Ops: x.run.Ops, Variant: x.run.Variant, RaceBuild: x.run.RaceBuild}
+		bin := self
+		if x.run.RaceBuild && selfRace != "" {
+			bin = selfRace
+		}
 		if err := writeJSON(path, rf); err != nil {
 			fmt.Fprintln(os.Stderr, "check:", err)
 			return 2
@@ -708,15 +837,15 @@ func cmdCheck(args []string) int {
 		if *tier == "thorough" {
 			budget = "90s"
 		}
-		sh := exec.Command(self, "shrink", "-file", path, "-budget", budget)
+		sh := exec.Command(bin, "shrink", "-file", path, "-budget", budget)
 		sh.Stderr = os.Stderr
-		sh.Env = append(os.Environ(), "GORACE=halt_on_error=0 log_path="+raceLogPrefix())
+		sh.Env = append(os.Environ(), "GORACE=halt_on_error=0 exitcode=0 log_path="+raceLogPrefix())
 		if err := sh.Run(); err != nil {
 			// keep the un-minimised trace
 			writeJSON(path, rf)
 		}
-		rp := exec.Command(self, "replay", "-q", "-file", path)
-		rp.Env = append(os.Environ(), "GORACE=halt_on_error=0 log_path="+raceLogPrefix())
+		rp := exec.Command(bin, "replay", "-q", "-file", path)
+		rp.Env = append(os.Environ(), "GORACE=halt_on_error=0 exitcode=0 log_path="+raceLogPrefix())
 		err := rp.Run()
 		code := 0
 		if ee, ok := err.(*exec.ExitError); ok {
@@ -727,8 +856,8 @@ func cmdCheck(args []string) int {
 		if code != 1 {
 			// minimised file does not replay: fall back to the original trace
 			writeJSON(path, rf)
-			rp2 := exec.Command(self, "replay", "-q", "-file", path)
-			rp2.Env = append(os.Environ(), "GORACE=halt_on_error=0 log_path="+raceLogPrefix())
+			rp2 := exec.Command(bin, "replay", "-q", "-file", path)
+			rp2.Env = append(os.Environ(), "GORACE=halt_on_error=0 exitcode=0 log_path="+raceLogPrefix())
 			err2 := rp2.Run()
 			code = 0
 			if ee, ok := err2.(*exec.ExitError); ok {
@@ -749,7 +878,12 @@ func cmdCheck(args []string) int {
 		fmt.Fprintln(os.Stderr, "check: evidence:", err)
 		return 2
 	}
-	fmt.Printf("check %s %s: %d runs, %d new violation signature(s), %d known finding(s), %.1fs\n", pd.ID, *tier, len(results), len(newViol), len(knownSeen), wall)
+	if fl, _ := filepath.Glob(raceLogPrefix() + ".*"); len(fl) > 0 {
+		for _, f := range fl {
+			os.Remove(f)
+		}
+	}
+	fmt.Printf("check %s %s: %d runs (%d of them under the race detector), %d new violation signature(s), %d known finding(s), %.1fs\n", pd.ID, *tier, len(results), nRace, len(newViol), len(knownSeen), wall)
 	return exit
 }
 
@@ -828,6 +962,20 @@ func writeEvidence(pd *PropDef, tier string, seed uint64, results []RunResult, w
 			"step_budget_exhausted":  exhausted,
 			"other_property_violations_seen": other,
 		},
+	}
+	if pd.Race {
+		nr, drop := 0, 0
+		for _, r := range results {
+			if r.RaceBuild {
+				nr++
+				drop += r.RaceDrop
+			}
+		}
+		ev["coverage"].(map[string]any)["race_detector"] = map[string]any{
+			"runs_under_race_build":                nr,
+			"harness_side_reports_dropped":         drop,
+			"note": "same scenarios and choice streams as the plain build (event-log hashes compared); token hand-over inside RaceDisable sections creates no happens-before edge between agent goroutines",
+		}
 	}
 	if x := os.Getenv("UPFSIM_EXTRA_COVERAGE"); x != "" {
 		var extra map[string]any
